@@ -29,7 +29,7 @@ func init() {
 			"the window between the status load and the CAS inside Engine.Shutdown contains no park point; a second Shutdown is only judged when it starts after the first one has begun",
 			"signal handling (Spin) is not exercised",
 		},
-		RequiredProbes: []string{"conn-idle-at-shutdown", "conn-handler-running-at-shutdown", "conn-mid-request-at-shutdown", "hook-slow", "hook-beyond-deadline", "second-shutdown", "shutdown-before-run", "dial-after-shutdown", "wait-expired", "returned-early", "close-hdr-checked", "slow-accept-callback", "request-received-before-shutdown", "pipelined-request-received-before-shutdown", "listen-error", "slow-reader", "write-backpressure", "handler-sets-connection"},
+		RequiredProbes: []string{"conn-idle-at-shutdown", "conn-handler-running-at-shutdown", "conn-mid-request-at-shutdown", "hook-slow", "hook-beyond-deadline", "second-shutdown", "shutdown-before-run", "dial-after-shutdown", "wait-expired", "returned-early", "close-hdr-checked", "slow-accept-callback", "request-received-before-shutdown", "pipelined-request-received-before-shutdown", "listen-error", "slow-reader", "write-backpressure", "handler-sets-connection", "client-rst-during-handler"},
 	}
 }
 
@@ -60,6 +60,9 @@ func RunC18(ep *core.Episode) {
 	opts.IdleTimeout = idleT
 	opts.ReadTimeout = 0
 	opts.DisablePrintRoute = true
+	// the transport watches for clients that go away while their handler runs (a second goroutine per connection)
+	sense := tp.Chance("sensedisc", 1, 4)
+	opts.SenseClientDisconnection = sense
 	// connection callbacks that take time: a connection can be accepted but not yet handed to its goroutine
 	cbDelay := tp.PickDur("cbdelay", 0, 0, 15*time.Millisecond)
 	if cbDelay > 0 {
@@ -118,6 +121,8 @@ func RunC18(ep *core.Episode) {
 	// hooks
 	nhooks := tp.Choose("nhooks", 4)
 	hookCalls := make([]int, nhooks)
+	hookDone := make([]int, nhooks)       // hooks that ran to their end
+	hookCancelled := make([]bool, nhooks) // the hook's context was cancelled while it ran
 	var hookDur []time.Duration
 	for i := 0; i < nhooks; i++ {
 		i := i
@@ -136,6 +141,10 @@ func RunC18(ep *core.Episode) {
 			if d > 0 {
 				time.Sleep(d)
 			}
+			hmu.Lock()
+			hookDone[i]++
+			hookCancelled[i] = ctx.Err() != nil
+			hmu.Unlock()
 		})
 	}
 
@@ -170,6 +179,7 @@ func RunC18(ep *core.Episode) {
 		reqEnds []int // offset in the client's byte stream at which request k ends
 		owed    int   // index of the request the server owed an answer when Shutdown was called (-1: none)
 		slow    bool  // the client takes the response bytes in small pieces: the server's writes block
+		aborted bool  // fault: the client reset the connection while its handler was running
 	}
 	var conns []*cst
 	dialClient := func(i int) *cst {
@@ -215,6 +225,8 @@ func RunC18(ep *core.Episode) {
 	}
 
 	// the shutdown call(s)
+	var hookDoneAtReturn []int
+	var hookCancelledAtReturn []bool
 	var shutErr, shutErr2 error
 	var shutDur time.Duration
 	shutReturned := false
@@ -285,6 +297,10 @@ func RunC18(ep *core.Episode) {
 		t0 := time.Now()
 		shutErr = eng.Shutdown(context.Background())
 		shutDur = time.Since(t0)
+		hmu.Lock()
+		hookDoneAtReturn = append([]int(nil), hookDone...)
+		hookCancelledAtReturn = append([]bool(nil), hookCancelled...)
+		hmu.Unlock()
 		// returning nil before the wait expired claims that every accepted connection is finished
 		if shutErr == nil && firstWasRunning && shutDur < exitWait {
 			for _, ac := range ln.AcceptedConns {
@@ -330,6 +346,30 @@ func RunC18(ep *core.Episode) {
 			}
 		}
 	}))
+	// fault: a client goes away (RST) while its handler is running
+	if sense || tp.Chance("clientabort", 1, 4) {
+		aborts := 0
+		S.AddSource(core.SourceFunc(func(add func(core.Event)) {
+			if aborts >= 2 {
+				return
+			}
+			for _, c := range conns {
+				c := c
+				hmu.Lock()
+				hh := handled[c.name]
+				inHandler := len(hh) > 0 && !hh[len(hh)-1].returned
+				hmu.Unlock()
+				if inHandler && !c.aborted && !c.sc.B.IsClosed() {
+					add(core.Event{Key: "client-abort " + c.name, Weight: 1, Apply: func() {
+						aborts++
+						c.aborted = true
+						c.sc.B.Reset()
+						ep.Fault("client-rst-during-handler")
+					}})
+				}
+			}
+		}))
+	}
 	// late dials
 	lateDials := 0
 	S.AddSource(core.SourceFunc(func(add func(core.Event)) {
@@ -468,6 +508,15 @@ func RunC18(ep *core.Episode) {
 			ep.Probe("returned-early")
 		}
 	}
+	// a hook shorter than the exit wait has finished, uncancelled, by the time Shutdown returns
+	if !beforeRun && shutErr == nil && firstWasRunning {
+		for i, d := range hookDur {
+			if d < exitWait && (hookDoneAtReturn[i] != 1 || hookCancelledAtReturn[i]) {
+				ep.Fail("C18.hooks", "shutdown hook %d (takes %v, exit wait %v) had not finished when Shutdown returned after %v (finished %d times, context cancelled: %v)", i, d, exitWait, shutDur, hookDoneAtReturn[i], hookCancelledAtReturn[i])
+				return
+			}
+		}
+	}
 	if !beforeRun {
 		wantHooks := 0
 		if shutErr == nil || (second && shutErr2 == nil) {
@@ -483,7 +532,7 @@ func RunC18(ep *core.Episode) {
 	// a graceful shutdown (nil before the wait expired) has answered every request that had been received completely
 	if shutErr == nil && firstWasRunning && !beforeRun && shutDur < exitWait {
 		for _, c := range conns {
-			if c.owed >= 0 && len(handled[c.name]) <= c.owed {
+			if c.owed >= 0 && !c.aborted && len(handled[c.name]) <= c.owed {
 				ep.Fail("C18.complete", "connection %s: request %d had been delivered completely before Shutdown was called and everything before it had been answered, but it was never handled (Shutdown returned nil after %v)", c.name, c.owed, shutDur)
 				return
 			}
@@ -496,6 +545,9 @@ func RunC18(ep *core.Episode) {
 		}
 		c.cl.Parse()
 		h := handled[c.name]
+		if c.aborted {
+			continue // the client went away: nothing is owed to it
+		}
 		if c.cl.ParseErr != nil {
 			ep.Fail("C18.complete", "connection %s: server output is not well-formed: %v", c.name, c.cl.ParseErr)
 			return
